@@ -66,6 +66,10 @@ CLAIMS = {
             "combinations: the serialised form is structurally pure JSON, the rebuilt condition equals the original, re-serialisation "
             "is identical and both filter / validate identically, for every value of the symbolic atoms; real json.dumps/loads on the "
             "concrete witness of each case", "3 C11"),
+    "C12": ("for each API-built or spec-built path (non-equality key/index conditions, value conditions, combined conditions, differing "
+            "key/index, labels): to_part_specs either raises or yields structurally pure JSON specs whose rebuilt path selects the "
+            "same nodes (by identity) with the same concrete paths for every value of the symbolic atoms and leaves, and equals the "
+            "original when that was built from specs; path specs with modifiers (to_spec) likewise", "3 C12"),
     "C14": ("equality laws (reflexive/symmetric/transitive, rebuilt and commuted copies equal) and 'equal implies same "
             "behaviour' decided for every value of the differing atom (key, index, argument, label) and of the probe "
             "document's leaves, per term kind", "3 C14"),
